@@ -32,6 +32,9 @@ type value struct {
 	Canon   string
 	PermOf  int    // index of the value this one is a permutation / sub-second variant of, or -1
 	Crafted string // family name for crafted separator values
+	// Star >= 0: a wide value (nested collections with several entries: comparisons are expensive); in the quick tier it
+	// is compared with itself and with the base of its family (index Star) only, not with every other value
+	Star int // 0 = no; else index of the family's base + 1
 }
 
 // CraftedPairs returns node pairs that differ in content although the flattened equality encoding of both coincides.
@@ -49,6 +52,7 @@ func CraftedPairs() [][2]*sbom.Node {
 
 func nodeValues(thorough bool) []value {
 	var vs []value
+	star := false
 	addBase := func(label string, base *sbom.Node, depth int) {
 		bi := len(vs)
 		vs = append(vs, value{Label: label, Msg: base, PermOf: -1})
@@ -60,6 +64,11 @@ func nodeValues(thorough bool) []value {
 				v.PermOf = bi
 			}
 			vs = append(vs, v)
+		}
+		if star && !thorough {
+			for i := bi; i < len(vs); i++ {
+				vs[i].Star = bi + 1
+			}
 		}
 	}
 	full := &sbom.Node{}
@@ -76,6 +85,20 @@ func nodeValues(thorough bool) []value {
 	gen.SetField(sub.ProtoReflect(), sub.ProtoReflect().Descriptor().Fields().ByName("build_date"), 1, "S")
 	sub.ReleaseDate.Nanos, sub.BuildDate.Nanos = 700_000_000, 700_000_000
 	addBase("subsecond-dates", sub, 1)
+	// dates before 1970 with half a second: negative seconds with positive nanos (rounding toward zero and rounding
+	// down differ there)
+	pre := &sbom.Node{Id: "n3", Name: "pre-epoch"}
+	gen.SetField(pre.ProtoReflect(), pre.ProtoReflect().Descriptor().Fields().ByName("release_date"), 1, "S")
+	gen.SetField(pre.ProtoReflect(), pre.ProtoReflect().Descriptor().Fields().ByName("valid_until_date"), 1, "S")
+	pre.ReleaseDate.Seconds, pre.ReleaseDate.Nanos = -1_000_000_000, 500_000_000
+	pre.ValidUntilDate.Seconds, pre.ValidUntilDate.Nanos = -2, 500_000_000
+	addBase("pre-epoch-subsecond-dates", pre, 1)
+	// nested collections with three entries each (an external reference with three hashes, contacts of contacts)
+	deep := &sbom.Node{}
+	gen.FullDeep(deep, "A", 3, 2)
+	star = true
+	addBase("full-deep", deep, 2)
+	star = false
 	if thorough {
 		full3 := &sbom.Node{}
 		gen.Full(full3, "B", 3)
@@ -351,10 +374,19 @@ type equaler func(a, b proto.Message) bool
 
 func family(c *engine.Ctx, name string, vs []value, eq equaler, checksum func(m proto.Message) string) {
 	c.Group(name + "-pairs")
-	c.Bound(name, fmt.Sprintf("%d values: all %d ordered pairs, all %d triples", len(vs), len(vs)*len(vs), len(vs)*len(vs)*len(vs)))
+	nStar := 0
+	for _, v := range vs {
+		if v.Star > 0 {
+			nStar++
+		}
+	}
+	c.Bound(name, fmt.Sprintf("%d values: all %d ordered pairs, all %d triples; plus %d wide values (nested collections of three entries, single and nested deviations) compared with themselves and with their base (thorough tier: with everything)", len(vs)-nStar, (len(vs)-nStar)*(len(vs)-nStar), (len(vs)-nStar)*(len(vs)-nStar)*(len(vs)-nStar), nStar))
 	for i := range vs {
 		for j := range vs {
 			i, j := i, j
+			if (vs[i].Star > 0 || vs[j].Star > 0) && !(i == j || (vs[i].Star == vs[j].Star && (vs[i].Star == i+1 || vs[j].Star == j+1))) {
+				continue // wide values, quick tier: with themselves and with their base only
+			}
 			c.Case(func() any { return map[string]string{"a": vs[i].Label, "b": vs[j].Label} }, func(t *engine.T) *engine.Violation {
 				a, b := vs[i], vs[j]
 				before := gen.Snap(a.Msg) + gen.Snap(b.Msg)
@@ -405,6 +437,9 @@ func family(c *engine.Ctx, name string, vs []value, eq equaler, checksum func(m 
 		if mat[a] == nil {
 			r := make([]bool, len(vs))
 			for b := range vs {
+				if vs[a].Star != vs[b].Star {
+					continue // wide values, quick tier: within their family only
+				}
 				r[b] = eq(vs[a].Msg, vs[b].Msg)
 			}
 			mat[a] = r
@@ -413,6 +448,9 @@ func family(c *engine.Ctx, name string, vs []value, eq equaler, checksum func(m 
 	}
 	for i := range vs {
 		i := i
+		if vs[i].Star > 0 && vs[i].Star != i+1 {
+			continue // wide values, quick tier: the row of the family's base only
+		}
 		c.Case(func() any { return map[string]any{"row": vs[i].Label, "triples-with-this-first-element": len(vs) * len(vs)} }, func(t *engine.T) *engine.Violation {
 			mat = make([][]bool, len(vs)) // per run of the case (the rows depend on the map iteration order of the run)
 			ri := row(i)
